@@ -360,6 +360,21 @@ fn c40stale() {
     println!("C40stale payload 2 after reopen: {:?}", m3.frame_canonical_payload(2).map(|b| String::from_utf8_lossy(&b).into_owned()).map_err(|e| e.to_string()));
 }
 
+fn c27skip() {
+    let dir = tempfile::tempdir().unwrap();
+    let p = dir.path().join("a.mv2");
+    let mut m = Memvid::create(&p).unwrap();
+    m.put_bytes(b"I work at Anthropic. I live in San Francisco.").unwrap();
+    println!("C27skip cards in memory after put: {}", m.get_entity_memories("user").len());
+    m.commit_skip_indexes().unwrap();
+    println!("C27skip cards in memory after commit_skip_indexes: {}", m.get_entity_memories("user").len());
+    m.finalize_indexes().unwrap();
+    println!("C27skip cards in memory after finalize_indexes: {}", m.get_entity_memories("user").len());
+    drop(m);
+    let m2 = Memvid::open_read_only(&p).unwrap();
+    println!("C27skip after reopen: frames = {}, cards = {}", m2.frame_count(), m2.get_entity_memories("user").len());
+}
+
 fn c32() {
     let dir = tempfile::tempdir().unwrap();
     let p = dir.path().join("a.mv2");
@@ -577,5 +592,5 @@ fn c08() {
 
 fn main() {
     let which = std::env::args().nth(1).unwrap_or_default();
-    match which.as_str() { "c05"=>c05(), "c26"=>c26(), "c20"=>c20(), "c20blob"=>c20blob(), "c07"=>c07(), "c39"=>c39(), "c19"=>c19(), "c02growth"=>c02growth(), "c04"=>c04(), "c40stale"=>c40stale(), "c27auto"=>c27auto(), "c27rec"=>c27rec(), "c23mem"=>c23mem(), "c20wal"=>c20wal(), "c26replay"=>c26replay(), "c18replay"=>c18replay(), "c02replay"=>c02replay(), "c32"=>c32(), "c11"=>c11(), "c17"=>c17(), "c08"=>c08(), "c29"=>c29(), "c14"=>c14(), "c09"=>c09(), "c18"=>c18(), "c23"=>c23(), "c16"=>c16(), "c40"=>c40(), "c24"=>c24(), "c15"=>c15(), "c22"=>c22(), _=>{ c05(); c26(); c20(); c11(); c17(); } }
+    match which.as_str() { "c05"=>c05(), "c26"=>c26(), "c20"=>c20(), "c20blob"=>c20blob(), "c07"=>c07(), "c39"=>c39(), "c19"=>c19(), "c02growth"=>c02growth(), "c04"=>c04(), "c27skip"=>c27skip(), "c40stale"=>c40stale(), "c27auto"=>c27auto(), "c27rec"=>c27rec(), "c23mem"=>c23mem(), "c20wal"=>c20wal(), "c26replay"=>c26replay(), "c18replay"=>c18replay(), "c02replay"=>c02replay(), "c32"=>c32(), "c11"=>c11(), "c17"=>c17(), "c08"=>c08(), "c29"=>c29(), "c14"=>c14(), "c09"=>c09(), "c18"=>c18(), "c23"=>c23(), "c16"=>c16(), "c40"=>c40(), "c24"=>c24(), "c15"=>c15(), "c22"=>c22(), _=>{ c05(); c26(); c20(); c11(); c17(); } }
 }
